@@ -74,6 +74,15 @@ func c18Oracle(r *e4Result) (string, []string, bool) {
 		if cutByBroker {
 			continue // the link died for another reason before the timeout could act
 		}
+		byKeepAlive := false
+		for _, ce := range r.ConnEnd {
+			if ce.ID == e.Conn && ce.Err != nil && errors.Is(ce.Err, ErrPingTimeout) {
+				byKeepAlive = true
+			}
+		}
+		if byKeepAlive {
+			continue // (cases with keep-alive: an unanswered ping ended that connection first, which is just as good)
+		}
 		if !closedLocal {
 			if r.Stuck {
 				return fmt.Sprintf("the %s for id %d was dropped on c%d (#%d) and the client now waits indefinitely: transport not closed, nothing happens (ResponseTimeout %d ms); %s",
